@@ -93,3 +93,110 @@ ADD_COMPONENT = FSpec("IndexMarket._add_market", post=am_post, props=("C17",),
 def t_add_component():
     obl, info = ADD_COMPONENT.verify()
     return {"obligations": obl, "info": [info]}
+
+
+# _add_markets / setup: a whole batch of components; the duplicate check covers duplicates inside the batch (C17 "components must be distinct markets that declare outstanding shares")
+def comp_inv(st, idx):
+    lst = st.read(idx, "_components").term
+    y = z3.Const("y_ci", REF)
+    return z3.And(st.nodup(lst), st.length(lst) >= 0, z3.ForAll([y], z3.Implies(st.mem(lst, y), z3.Not(st.read(V(("ref", "Market"), y), "outstanding_shares").none))))
+
+
+def batch_view(st, a):
+    ms = a["markets"].term
+    return ms, st.length(ms), st.elems(ms, ("ref", "Market"))
+
+
+def batch_dup(st, a):
+    idx = a["self"]; lst = st.read(idx, "_components").term
+    ms, n, el = batch_view(st, a)
+    i, j = z3.Ints("i_bd j_bd")
+    return z3.Or(z3.Exists([i], z3.And(0 <= i, i < n, st.mem(lst, z3.Select(el, i)))), z3.Exists([i, j], z3.And(0 <= i, i < j, j < n, z3.Select(el, i) == z3.Select(el, j))))
+
+
+def batch_noshares(st, a):
+    ms, n, el = batch_view(st, a)
+    i = z3.Int("i_bn")
+    return z3.Exists([i], z3.And(0 <= i, i < n, st.read(V(("ref", "Market"), z3.Select(el, i)), "outstanding_shares").none))
+
+
+def ams_post(st0, st1, a, res):
+    idx = a["self"]; lst = st0.read(idx, "_components").term
+    ms, n, el = batch_view(st0, a)
+    y = z3.Const("y_ams", REF); i = z3.Int("i_ams")
+    return [("C17 the components are the previous ones plus every market of the batch, each once",
+             z3.And(st1.read(idx, "_components").term == lst, st1.length(lst) == st0.length(lst) + n,
+                    z3.ForAll([y], st1.mem(lst, y) == z3.Or(st0.mem(lst, y), z3.Exists([i], z3.And(0 <= i, i < n, z3.Select(el, i) == y)))))),
+            ("C17 components are pairwise distinct markets that declare outstanding shares", comp_inv(st1, idx))]
+
+
+ADD_COMPONENTS = FSpec("IndexMarket._add_markets", post=ams_post, props=("C17",),
+                       pre=lambda st, a: [("components so far are distinct and declare shares", comp_inv(st, a["self"])), ("len >= 0", st.length(a["markets"].term) >= 0),
+                                          ("the batch is not the component list itself", a["markets"].term != st.read(a["self"], "_components").term)],
+                       modifies=lambda st, a: [(k, [st.read(a["self"], "_components").term]) for k in ("len", "mem", "el:Ref", "nodup", "heapok")],
+                       raises={"ValueError": batch_dup, "AssertionError": batch_noshares})
+
+
+def ams_loops():
+    def inv(st, ctx):
+        i = ctx["i"]; e = ctx["entry"]; idx = st.env["self"]
+        a = {"self": idx, "markets": st.env["markets"]}
+        lst = e.read(idx, "_components").term
+        ms, n, el = batch_view(e, a)
+        y = z3.Const("y_amsl", REF); j, k = z3.Ints("j_amsl k_amsl")
+        return [("components = previous + the first i markets of the batch", z3.And(st.read(idx, "_components").term == lst, st.length(lst) == e.length(lst) + i,
+                                                                                    z3.ForAll([y], st.mem(lst, y) == z3.Or(e.mem(lst, y), z3.Exists([j], z3.And(0 <= j, j < i, z3.Select(el, j) == y)))))),
+                ("component invariant", comp_inv(st, idx)),
+                ("the batch list is unchanged", z3.And(st.length(ms) == n, z3.ForAll([j], z3.Implies(z3.And(0 <= j, j < n), z3.Select(st.elems(ms, ("ref", "Market")), j) == z3.Select(el, j))))),
+                ("the first i markets of the batch were new, pairwise distinct and declare shares",
+                 z3.And(z3.ForAll([j], z3.Implies(z3.And(0 <= j, j < i), z3.And(z3.Not(e.mem(lst, z3.Select(el, j))), z3.Not(st.read(V(("ref", "Market"), z3.Select(el, j)), "outstanding_shares").none)))),
+                        z3.ForAll([j, k], z3.Implies(z3.And(0 <= j, j < k, k < i), z3.Select(el, j) != z3.Select(el, k)))))]
+    return {0: LoopSpec(inv, modifies=lambda st, ctx: [(k, [st.read(st.env["self"], "_components").term]) for k in ("len", "mem", "el:Ref", "nodup", "heapok")], header="markets", name="batch")}
+
+
+@task("IndexMarket._add_markets", props=["C17"], functions=["IndexMarket._add_markets"], replay="index")
+def t_add_components():
+    """_add_markets: every market of the batch goes through the duplicate / shares check against everything registered before it, including earlier members of the same batch"""
+    obl, info = ADD_COMPONENTS.verify(specs={("m", "IndexMarket", "_add_market"): ADD_COMPONENT.handler()}, loops=ams_loops())
+    return {"obligations": obl, "info": [info]}
+
+
+# IndexMarket.setup: the configured component names go through the same check one by one (whatever Market.setup does before, it cannot touch the component list)
+def idx_setup_loops():
+    def inv(st, ctx):
+        return [("component invariant", comp_inv(st, st.env["self"])), ("the component list object is the one created by __init__", st.read(st.env["self"], "_components").term == ctx["entry"].read(st.env["self"], "_components").term)]
+    return {0: LoopSpec(inv, modifies=lambda st, ctx: [(k, [st.read(st.env["self"], "_components").term]) for k in ("len", "mem", "el:Ref", "nodup", "heapok")], header="settings['markets']", name="configured-components")}
+
+
+IDX_SETUP = FSpec("IndexMarket.setup", props=("C17",), param_types={"settings": ("dict", ("str",), ("dyn",))}, modifies=lambda st, a: ["*"],
+                  pre=lambda st, a: idx_setup_pre(st, a),
+                  post=lambda st0, st1, a, res: [("C17 components are pairwise distinct markets that declare outstanding shares", comp_inv(st1, a["self"]))])
+
+
+def idx_setup_pre(st, a):
+    s = a["settings"]; sim = st.read(a["self"], "simulator")
+    v = z3.Select(st.dict_val(s), z3.StringVal("markets"))
+    lst = dyn_ref(v); i = z3.Int("i_isp")
+    el = lambda j: z3.Select(st.elems(lst, ("dyn",)), j)
+    n2m = st.read(sim, "name2market")
+    return [("components so far are distinct and declare shares", comp_inv(st, a["self"])),
+            ("numeric market parameters are JSON numbers", z3.And(*[z3.Implies(z3.Select(st.dict_dom(s), z3.StringVal(k)), z3.Or(dyn_is_int(z3.Select(st.dict_val(s), z3.StringVal(k))), dyn_is_real(z3.Select(st.dict_val(s), z3.StringVal(k)))))
+                                                                   for k in ("tickSize", "marketPrice", "fundamentalPrice", "fundamentalDrift", "fundamentalVolatility", "outstandingShares", "tradeVolume")])),
+            ("`markets` is a list of names of registered markets",
+             z3.Implies(z3.Select(st.dict_dom(s), z3.StringVal("markets")),
+                        z3.And(dyn_is_list(v), st.length(lst, ("dyn",)) >= 0,
+                               z3.ForAll([i], z3.Implies(z3.And(0 <= i, i < st.length(lst, ("dyn",))), z3.And(dyn_is_str(el(i)), z3.Select(st.dict_dom(n2m), dyn_str(el(i)))))))))]
+
+
+# rejected configurations (missing keys, unknown names, duplicate or share-less components) end in an exception; which one is not part of C17
+IDX_SETUP.may_raise = {e: (lambda st, a: z3.BoolVal(True)) for e in ("ValueError", "AssertionError", "KeyError", "TypeError")}
+
+
+@task("IndexMarket.setup", props=["C17"], functions=["IndexMarket.setup", "Market.setup"], replay="index")
+def t_idx_setup():
+    """IndexMarket.setup (Market.setup inlined): every configured component passes through _add_market's check, so the component invariant holds afterwards"""
+    import ast
+    has_loop = any(isinstance(n, (ast.For, ast.While)) for n in ast.walk(IDX_SETUP.fn))       # a setup that delegates the whole batch to _add_markets has no loop of its own
+    obl, info = IDX_SETUP.verify(specs={("m", "IndexMarket", "_add_market"): ADD_COMPONENT.handler(), ("m", "IndexMarket", "_add_markets"): ADD_COMPONENTS.handler()},
+                                 loops=idx_setup_loops() if has_loop else {})
+    return {"obligations": obl, "info": [info]}
